@@ -291,6 +291,12 @@ def check_c09(pid, tier, seed, rep):
     N = stage_n.stage(seed, tier)
     ndir = 0
     for r in N["records"]:
+        if r["gen_rc"] not in (0, 1) or "panic:" in (r.get("gen_err") or "") or "goroutine 1 [running]" in (r.get("gen_err") or ""):
+            # neither accepted nor refused with a diagnostic: the generator crashed
+            nviol += 1
+            rep.violation("crash-%s" % r["name"], dict(package_dir=os.path.join(N["srcdir"], r["dir"]), kind=r["meta"]["kind"], exit=r["gen_rc"], stderr=r["gen_err"], how="cd <package_dir> && kessoku <targets>"),
+                          "%s (%s): the generator crashed (exit %s): %s" % (r["name"], r["meta"]["kind"], r["gen_rc"], (r.get("gen_err") or "").strip()[:160]))
+            continue
         if r["meta"].get("expect_accept"):
             ndir += 1
             if r["gen_rc"] == 0:
